@@ -77,6 +77,8 @@ type LabCase struct {
 	GoFlags    GoFlags
 	Builders   bool
 	Converters bool
+	Veneers    string // builder veneers (YAML, %PKG% already replaced) applied to this case; "" = none
+	VeneersDir string
 
 	GenErr string            // pipeline error or "PANIC: …"; "" when generation succeeded
 	Files  map[string][]byte // pipeline output, keys as cog names them: go/<pkg>/…, python/…, jsonschema/…, openapi/…
@@ -201,6 +203,15 @@ func (l *Lab) AddCase(defs *Defs, format string) *LabCase {
 }
 
 func (l *Lab) AddCaseWith(defs *Defs, format string, flags GoFlags, builders, converters bool) *LabCase {
+	return l.AddCaseVeneers(defs, format, flags, builders, converters, "")
+}
+
+// AddCaseVeneers is AddCaseWith plus builder veneers: veneersYAML (one veneer file; every %PKG% is
+// replaced by the case ID, which is the cog package name) is written to
+// <lab>/veneers/<caseID>/v.yaml and that directory is handed to the pipeline as
+// transformations.builders for the generation run AND for the chain IR, so BuildersGo/BuildersPy
+// show the post-veneer builders. A veneer file that cog rejects shows up in GenErr / IRGoErr.
+func (l *Lab) AddCaseVeneers(defs *Defs, format string, flags GoFlags, builders, converters bool, veneersYAML string) *LabCase {
 	t0 := time.Now()
 	defer l.timed("generate", t0)
 	idx := len(l.Cases)
@@ -220,6 +231,14 @@ func (l *Lab) AddCaseWith(defs *Defs, format string, flags GoFlags, builders, co
 	}
 	c.Defs = d
 	c.SchemaText, c.RefSchemaText = ro.Text, ro.RefText
+	if veneersYAML != "" {
+		c.Veneers = strings.ReplaceAll(veneersYAML, "%PKG%", c.ID)
+		c.VeneersDir = filepath.Join(l.Dir, "veneers", c.ID)
+		if err := l.writeFile(filepath.Join("veneers", c.ID, "v.yaml"), []byte(c.Veneers)); err != nil {
+			c.GenErr = "lab: " + err.Error()
+			return c
+		}
+	}
 	l.generate(c)
 	return c
 }
@@ -279,7 +298,7 @@ func (l *Lab) generate(c *LabCase) {
 }
 
 func (l *Lab) labRun(c *LabCase) labRun {
-	lr := labRun{Format: c.Format, Path: c.SchemaPath, Package: c.ID, Builders: c.Builders, Convert: c.Converters}
+	lr := labRun{Format: c.Format, Path: c.SchemaPath, Package: c.ID, Builders: c.Builders, Convert: c.Converters, VeneersDir: c.VeneersDir}
 	if !l.Opts.NoGo {
 		lr.GoCfg = &golang.Config{GenerateJSONMarshaller: c.GoFlags.JSONMarshaller, GenerateStrictUnmarshaller: c.GoFlags.StrictUnmarshaller,
 			GenerateEqual: c.GoFlags.Equal, GenerateValidate: c.GoFlags.Validate, AnyAsInterface: c.GoFlags.AnyAsInterface,
